@@ -33,6 +33,26 @@ pub fn run(ctx: &Ctx) -> i32 {
         // second pass: two-action mixes
         let mut second = vec![];
         for f in first.iter().take(if th { 120 } else { 60 }) { for d in &ds { let t = bind::dset(&[*d]); for a in [0usize, 1, 3] { if let Ok(r) = catch(|| f.elide_removing_set_with_action(&t, &actions(a))) { if seen.insert(bind::observe(&r)) { second.push(r) } } } } }
+        // position-wise variants: exactly ONE position obscured even when equal content occurs elsewhere (target-set elision cannot build these)
+        fn positions(m: &M, path: &mut Vec<usize>, out: &mut Vec<Vec<usize>>) {
+            out.push(path.clone());
+            match m { M::Wrapped(e) => { path.push(0); positions(e, path, out); path.pop(); } M::Assertion(p, o) => { path.push(0); positions(p, path, out); path.pop(); path.push(1); positions(o, path, out); path.pop(); }
+                M::Node(s, a) => { path.push(0); positions(s, path, out); path.pop(); for (i, x) in a.iter().enumerate() { path.push(i + 1); positions(x, path, out); path.pop(); } } _ => {} }
+        }
+        fn obscure_at(m: &M, path: &[usize], kind: crate::refmodel::tree::Kind) -> M {
+            if path.is_empty() { return M::Obscured(kind, m.digest(), Some(Box::new(m.clone()))) }
+            match m { M::Wrapped(e) => M::Wrapped(Box::new(obscure_at(e, &path[1..], kind))),
+                M::Assertion(p, o) => if path[0] == 0 { M::Assertion(Box::new(obscure_at(p, &path[1..], kind)), o.clone()) } else { M::Assertion(p.clone(), Box::new(obscure_at(o, &path[1..], kind))) },
+                M::Node(s, a) => if path[0] == 0 { M::Node(Box::new(obscure_at(s, &path[1..], kind)), a.clone()) } else { let mut a2 = a.clone(); a2[path[0] - 1] = obscure_at(&a[path[0] - 1], &path[1..], kind); M::Node(s.clone(), a2) },
+                _ => m.clone() }
+        }
+        let mut pos = vec![]; positions(m, &mut vec![], &mut pos);
+        let mut positional = vec![];
+        for pth in pos.iter().skip(1) { for kind in [crate::refmodel::tree::Kind::Elided, crate::refmodel::tree::Kind::Compressed, crate::refmodel::tree::Kind::Encrypted] {
+            if let Ok(v) = catch(|| bind::build(&obscure_at(m, pth, kind), 0)) { if bind::dg(&v) == m.digest() && seen.insert(bind::observe(&v)) { positional.push(v) } }
+        } }
+        acc.add("positional_variants", positional.len() as u64);
+        for x in positional.into_iter().take(60) { fam.push((x, m.digest())) }
         let cap = if th { 260 } else { 150 };
         for x in first.into_iter().chain(second.into_iter()).take(cap) { fam.push((x, m.digest())) }
         let n0 = fam.len();
